@@ -10,23 +10,18 @@ shutil.copy(f"{wt}/patch.diff", f"{dst}/patch.diff")
 shutil.copy(f"{wt}/tests/seeded_demo.rs", f"{dst}/seeded_demo.rs")
 meta_txt = open(f"{wt}/meta.txt").read() if os.path.exists(f"{wt}/meta.txt") else ""
 conf = subprocess.run(["/verif/tools/confirm_seeded.sh", wt], capture_output=True, text=True).stdout
-out = subprocess.run(["/verif/tools/run_seeded.sh", f"{dst}/patch.diff"], capture_output=True, text=True).stdout
-res = {}
-for ln in out.split("\n"):
-    if " rc: " in ln:
-        p, r = ln.split(" rc: ", 1)
-        res[p.strip()] = "VIOLATION" if "VIOLATION" in r else ("OK" if r.startswith("OK") else ("UNDECIDED" if "UNDECIDED" in r or not r.strip() else r[:60]))
+res = {}   # filled in by tools/rerun_seeded.sh below (scratch copy of /repo, VERIF_REPO: /repo itself is not touched)
 meta = {
     "breaks_property": prop,
     "origin": "independent sub-agent given only the property text and a scratch worktree of /repo",
     "what_it_needs_to_manifest": meta_txt.strip(),
     "confirmed_by": "tools/confirm_seeded.sh (existing lib+doc tests pass with the change; seeded_demo.rs fails with it and passes without it)",
     "confirmation_output": conf.strip().split("\n"),
-    "checks_run": "tools/run_seeded.sh: git -C /repo apply patch.diff; bin/check Cxx for all 20; git -C /repo checkout -- .",
+    "checks_run": "tools/rerun_seeded.sh: patch.diff applied to a scratch copy of /repo (VERIF_REPO); bin/check Cxx for all 20 (equivalent to: git -C /repo apply patch.diff; checks; git -C /repo checkout -- .)",
     "check_results": res,
     "detected_by_target_check": res.get(prop) == "VIOLATION",
     "flagged_by": sorted(p for p, r in res.items() if r == "VIOLATION"),
     "recorded_at": time.strftime("%Y-%m-%dT%H:%M:%SZ", time.gmtime()),
 }
 json.dump(meta, open(f"{dst}/meta.json", "w"), indent=1)
-print(name, "target", prop, "->", res.get(prop), "flagged_by", meta["flagged_by"])
+print(subprocess.run(["/verif/tools/rerun_seeded.sh", name], capture_output=True, text=True).stdout.strip().split("\n")[-1])
